@@ -18,6 +18,13 @@ rule is a relation between the effects and the ghost state, so the rules do not 
 the code is cut into helpers, on what locals cache, on the order of independent stores, on
 loop or branch shape, or on the names of static functions, locals and internal globals.
 
+The transfer mode is identified by role: the file-scope cell (a plain variable, a member of a record that
+groups the module's settings, or a pointer to the current operations record) whose value separates the
+paths that splice from the paths that read/write.  The two ends of a buffer's pipe are identified by what
+pipe() returned (element 0 read end, element 1 write end) and by the cells of the buffer object in which
+the allocating paths keep them, not by the layout of the buffer record.  Transfers reached through
+function pointers (tables indexed by the mode, operations records, locals) are followed by value.
+
 Anchors: the exported functions, the public record iv_fd_pump (fields bytes, full, saw_fin,
 buf, flags, from_fd, to_fd, set_bands), and the libc/ivykis primitives read, write, splice,
 shutdown, memmove/memcpy, ioctl, malloc/calloc, free, iv_list_add[_tail].
@@ -155,6 +162,8 @@ class Harness(object):
         self.BUF = Sym(('seed', 'attached buffer'))
         self.pipe_bases = set()     # byte offsets (inside the buffer object) of the arrays handed to pipe()/pipe2
         self.pipe_ends = {}         # 'in' / 'out' -> byte offset of the descriptor the splice uses
+        self.made_ends = {}         # 'r' / 'w' -> byte offsets (inside the buffer object) of the cells that hold the read /
+                                    # write descriptor of a pipe created during the call (learnt from the paths that allocate)
 
     def F(self, name):
         return ('fld', self.OBJ, REC, name)
@@ -173,8 +182,18 @@ class Harness(object):
             st.cons[self.BUF] = (1, INF, frozenset())
         return st
 
+    @staticmethod
+    def settled(st, v):
+        """the integer an opaque value is known to equal on this path (a helper's result that the path decided to be NULL
+        and stored into the pump is NULL), else the value itself"""
+        if isinstance(v, Sym):
+            lo, hi, _ = st.rng(v)
+            if lo == hi:
+                return lo
+        return v
+
     def fields(self, st):
-        return tuple(self.m.peek(st, self.F(n)) for n in ('bytes', 'full', 'saw_fin', 'buf'))
+        return tuple(self.settled(st, self.m.peek(st, self.F(n))) for n in ('bytes', 'full', 'saw_fin', 'buf'))
 
     def explore(self, sc):
         return self.m.explore(self.initial(sc))
@@ -186,7 +205,7 @@ class Harness(object):
         st.effects.append(d)
         return d
 
-    def call_model(self, m, st, e, callee, fv, args):
+    def call_model(self, m, st, e, callee, fv, args, target=None):
         fromfd = m.read(st, self.F('from_fd'))
         tofd = m.read(st, self.F('to_fd'))
         if callee == 'read' and len(args) == 3 and args[0] is fromfd:
@@ -229,7 +248,13 @@ class Harness(object):
                     ad = m.byteaddr(a)
                     if ad is not None and ad[0][0] == 'obj':
                         self.pipe_bases.add(ad[1])
-                    break
+                    # the two descriptors the kernel hands out: element 0 is the read end, element 1 the write end,
+                    # wherever the caller keeps them afterwards
+                    isz = m.sizeof_type('int')
+                    m.write(st, m.deref(a), Sym(('pipe', 'r', e.get('loc'))))
+                    m.write(st, m.deref(m.padd(a, 1, isz)), Sym(('pipe', 'w', e.get('loc'))))
+                    m.set_result(st, e, Sym(('call', callee, e.get('loc'))))
+                    return [st]
             return None
         if callee == 'free' and len(args) == 1:
             self.eff(st, 'free', e, ptr=args[0])
@@ -248,10 +273,36 @@ class Harness(object):
         for a in args:
             ad = m.byteaddr(a) if (is_ptr(a) or a is self.IP) else None
             if ad is not None and ad[0] == self.OBJ:
+                if target is not None:
+                    return 'enter'      # a function with a body (reached by value or not inlined): evaluated in its own frame
                 raise AnalysisBroken('%s: the pump object is passed to %s, which is not inlined' % (self.root.name, callee or 'an indirect call'))
         return None
 
+    def pipe_cell(self, st, v):
+        """(which end a pipe() of this call produced it as: 'r' / 'w' / None, buffer object root, byte offset of the cell
+        the descriptor value lives in) for the pipe descriptor a splice uses"""
+        m = self.m
+        if not isinstance(v, Sym) or not isinstance(v.origin, tuple) or not v.origin:
+            return (None, None, None)
+        # where a buffer allocated during this call keeps the two descriptors pipe() handed out
+        hit = None
+        for k, val in st.mem.items():
+            if isinstance(val, Sym) and isinstance(val.origin, tuple) and val.origin and val.origin[0] == 'pipe' \
+                    and k[0] == 'mem' and k[1][0] == 'obj':
+                self.made_ends.setdefault(val.origin[1], set()).add(k[2])
+                if val is v:
+                    hit = (v.origin[1], k[1], k[2])
+        if v.origin[0] == 'pipe':
+            return hit or (v.origin[1], None, None)
+        if v.origin[0] in ('idx', 'at', 'fld'):
+            a = m.locaddr(v.origin)
+            if a is not None and a[0][0] == 'obj':
+                return (None, a[0], a[1])
+        return (None, None, None)
+
     def transfer(self, st, e, kind, mode, n, **kw):
+        if 'pipe' in kw:
+            kw['pipe_cell'] = self.pipe_cell(st, kw['pipe'])
         if isinstance(n, int):
             if n < 1:
                 rs = []
@@ -286,7 +337,7 @@ class Harness(object):
             if L[0] == 'fld' and L[1] == self.OBJ:
                 st.marks[('w', L[3])] = e.get('loc')
             return
-        if root[0] == 'var' and root[1] not in m.globals:
+        if root[0] == 'var' and (m.is_frame_local(root) or root[1] not in m.globals):
             return
         if root[0] in ('tmp', 'errno'):
             return
@@ -304,13 +355,25 @@ class Harness(object):
         self.eff(st, 'escape', e, objroot=a[0], target=root)
 
     # -- path facts ----------------------------------------------------------
-    def truth_of_global(self, st, name):
-        v = self.m.peek(st, ('var', name))
+    def global_cells(self, st):
+        """memory keys of the cells of file-scope objects (plain variables and members of grouped globals alike) that the
+        path has read or written"""
+        gl = self.m.globals
+        return [k for k in st.mem if k[0] == 'mem' and k[1][0] == 'var' and len(k[1]) == 2 and k[1][1] in gl]
+
+    def truth_of_cell(self, st, key):
+        """what the path knows about a file-scope cell, as far as a mode decision can depend on it: zero / non-zero for
+        an integer, the designated object for a pointer constant (an operations record selected at start-up)"""
+        v = st.mem.get(key)
         if v is None:
             return None
         if isinstance(v, int):
             return v != 0
-        return st.decide('!=', v, 0)
+        if isinstance(v, Sym):
+            return st.decide('!=', v, 0)
+        if isinstance(v, tuple) and v and v[0] in ('ptr', 'func'):
+            return v
+        return None
 
     def describe(self, sc, st, end):
         parts = []
@@ -422,9 +485,12 @@ def pump_machine(ctx):
         if not have_rw:
             return 'splice'
         if gsel is not None:
-            t = H_.truth_of_global(st, gsel[0])
+            t = H_.truth_of_cell(st, gsel[0])
             if t is not None:
-                return 'splice' if t == gsel[1] else 'rw'
+                if t in gsel[1]:
+                    return 'splice'
+                if t in gsel[2]:
+                    return 'rw'
         return None
 
     _SHARED[id(prog)] = dict(K=K, path_mode=path_mode)
@@ -438,7 +504,7 @@ def pump_machine(ctx):
             judge_pump(H, R, sc, end, st, mode, K)
     finally:
         R.emit(ctx, H.root.loc, H.root.q)
-    ctx.note('iv_fd_pump_pump: %d abstract states, %d paths judged, capacity %s, mode global %s' % (len(scs), npaths, K, gsel))
+    ctx.note('iv_fd_pump_pump: %d abstract states, %d paths judged, capacity %s, mode cell %s, pipe ends made at %s' % (len(scs), npaths, K, gsel, H.made_ends))
     required = ['shutdown-after-drain', 'shutdown-output-when-requested', 'final-stage-after-drain', 'eof-seen-on-zero-return',
                 'finishes-when-drained', 'stage-domain', 'error-return-iff-transfer-failed', 'input-only-with-room-before-eof',
                 'input-attempted-when-wanted', 'output-only-with-data', 'output-attempted-when-data', 'full-cleared-when-data-left',
@@ -485,32 +551,39 @@ def lifecycle(ctx):
 
 
 def mode_global(H, allpaths):
-    """(name, truth that means splice) of the file-scope variable whose value separates the splice paths from the
-    read/write paths of the pump; None when there is only one mode or no single such variable"""
+    """(memory cell, values that mean splice, values that mean read/write) of the file-scope cell -- a plain variable or a member of a record that
+    groups the module's globals -- whose value separates the splice paths from the read/write paths of the pump; None
+    when there is only one mode or no single such cell"""
     sp = [st for (_, _, st) in allpaths if transfer_modes(st) == {'splice'}]
     rw = [st for (_, _, st) in allpaths if transfer_modes(st) == {'rw'}]
     if not sp or not rw:
         return None
+    keys = set(H.global_cells(sp[0]))
     cands = []
-    for name in sorted(H.m.globals):
-        ts = {H.truth_of_global(st, name) for st in sp}
-        tr = {H.truth_of_global(st, name) for st in rw}
-        if len(ts) == 1 and len(tr) == 1 and None not in ts and None not in tr and ts != tr:
-            cands.append((name, next(iter(ts))))
+    for key in sorted(keys, key=repr):
+        ts = {H.truth_of_cell(st, key) for st in sp}
+        tr = {H.truth_of_cell(st, key) for st in rw}
+        if ts and tr and None not in ts and None not in tr and not (ts & tr):
+            cands.append((key, frozenset(ts), frozenset(tr)))
     return cands[0] if len(cands) == 1 else None
 
 
-def pipe_end(H, v, which):
-    """(buffer object root, ok) for the pipe descriptor value used by a splice: it was read from memory inside an
-    object; the write end lives one int above the read end of the array handed to pipe()/pipe2 (when that call was
-    seen on some path), and both ends are the same cells on every path"""
+def pipe_end(H, f, which):
+    """(buffer object root, ok) for the pipe descriptor used by a splice.  The input splice must write to the
+    descriptor that pipe() returned as the write end (element 1), the output splice must read from the read end
+    (element 0).  For a pipe created during the call that is the identity of the value; for a buffer that was attached
+    or came from the cache, the descriptor must be read from the very cell of the buffer object in which the allocating
+    paths keep that end, whatever the layout of the buffer record.  Only when no path shows the creation of the pipe:
+    both ends are the same cells on every path and the write end lives one int above the read end."""
     m = H.m
-    if not (isinstance(v, Sym) and isinstance(v.origin, tuple) and v.origin and v.origin[0] in ('idx', 'at', 'fld')):
+    want, other_end = ('w', 'r') if which == 'in' else ('r', 'w')
+    made, root, off = f.get('pipe_cell') or (None, None, None)
+    if made is not None:
+        return root, made == want
+    if root is None:
         return None, False
-    a = m.locaddr(v.origin)
-    if a is None or a[0][0] != 'obj':
-        return None, False
-    off = a[1]
+    if H.made_ends.get(want) or H.made_ends.get(other_end):
+        return root, off in H.made_ends.get(want, ()) and off not in H.made_ends.get(other_end, ())
     H.pipe_ends.setdefault(which, off)
     ok = H.pipe_ends[which] == off
     isz = m.sizeof_type('int')
@@ -519,7 +592,7 @@ def pipe_end(H, v, which):
     other = H.pipe_ends.get('out' if which == 'in' else 'in')
     if other is not None:
         ok = ok and ((off - other) == isz if which == 'in' else (other - off) == isz)
-    return a[0], ok
+    return root, ok
 
 
 def release_facts(H, st, broot):
@@ -596,7 +669,7 @@ def judge_pump(H, R, sc, end, st, mode, K):
                                 'allocation of %s bytes for a data area at offset %d of capacity %d; ' % (show_val(size), base[1], K), x.origin[2], tail=D)
                 R.check('R-C17d', 'read:offset+length==BUF_SIZE', ok, why + '; ', loc_of(f), tail=D)
             else:
-                proot, ok = pipe_end(H, f['pipe'], 'in')
+                proot, ok = pipe_end(H, f, 'in')
                 if proot is not None:
                     U.add(proot)
                 R.check('R-C17d', 'splice:pipe-ends', ok and (not isinstance(n, int) or n >= 1), 'input splice writes to %s; ' % show_val(f['pipe']), loc_of(f), tail=D)
@@ -635,7 +708,7 @@ def judge_pump(H, R, sc, end, st, mode, K):
                 R.check('R-C17d', 'write:length-is-bytes-from-base', ok,
                         'write(%s, data area %s, %s) with %d bytes buffered; ' % (show_val(f['fd']), ('%+d' % (a[1] - base[1])) if (a and base) else '?', show_val(n), gb), loc_of(f), tail=D)
             else:
-                proot, ok = pipe_end(H, f['pipe'], 'out')
+                proot, ok = pipe_end(H, f, 'out')
                 if proot is not None:
                     U.add(proot)
                 R.check('R-C17d', 'splice:pipe-ends', ok and (not isinstance(n, int) or n >= 1), 'output splice reads from %s; ' % show_val(f['pipe']), loc_of(f), tail=D)
